@@ -7,7 +7,7 @@ here is a false alarm candidate (or shows that the change was not benign after a
 import json, os, re, shutil, subprocess, sys, time
 V = os.path.dirname(os.path.dirname(os.path.abspath(__file__)))
 wt, n = sys.argv[1], sys.argv[2]
-checks = sys.argv[3:] or ["C%02d" % i for i in range(1, 20)]
+checks = sys.argv[3:] or (["C%02d" % i for i in range(1, 20)] + os.environ.get("BENIGN_EXTRA", "").split())
 sd = os.path.join(wt, "BENIGN", n)
 meta = json.load(open(os.path.join(sd, "meta.json")))
 env = dict(os.environ, CARGO_NET_OFFLINE="true", CARGO_TARGET_DIR=os.path.join(wt, "target"))
